@@ -13,9 +13,10 @@ Print Assumptions skipper_fuel_monotone.
      names and type arguments; arrays, indexed access; tuples with labelled,
      optional and rest elements; unions, intersections; keyof / readonly; infer;
      parenthesised types; function types, constructor types and abstract
-     constructor types with parameter lists (this, optional, rest, annotated or
+     constructor types with type-parameter lists (const / in / out modifiers,
+     extends constraint, = default) and parameter lists (this, optional, rest, annotated or
      not) and return types incl. predicates "x is T" / "this is T"; object types
-     with property, method, call, construct, accessor, index-signature and
+     with property, method (with type-parameter lists), call, construct, accessor, index-signature and
      mapped-type members (+/- readonly, +/- ?, "as" clause) and ";" / "," / no
      separator; conditional types (extends operand: any union-or-higher type
      without an exposed keyof/readonly, incl. a bare "infer U"); template-literal
@@ -26,7 +27,6 @@ Print Assumptions skipper_fuel_monotone.
    the tokens of t followed by rest stops exactly at rest -- whether adjacent ">"
    characters were lexed as one token (mg = true: ">>", ">>>", ">=", ">>=") or not.
    Still named _partial; excluded (tied by the correspondence run only):
-     type-parameter lists "<T extends U = V>" of function types and methods;
      "infer U extends C" constraints; destructuring patterns as parameters;
      "asserts x [is T]" outside return positions (see skip_exact_return);
      parenthesised types whose content starts with "[" "{" "(" or keyof/readonly
